@@ -305,7 +305,7 @@ func b2s(b bool) string {
 	return "0"
 }
 
-func runBridge(lim string, src, tgt []readEv, sw, tw []writeEv, stall, realPath bool) string {
+func runBridge(lim string, src, tgt []readEv, sw, tw []writeEv, stall, realPath, dup bool) string {
 	res := make(chan string, 1)
 	go func() {
 		defer func() {
@@ -343,7 +343,35 @@ func runBridge(lim string, src, tgt []readEv, sw, tw []writeEv, stall, realPath 
 		} else {
 			br = sm.VerifStartBridge(id, "", sc, limitOf(lim))
 		}
+		if dup {
+			sc.holdAtEnd, tc.holdAtEnd = true, true
+		}
 		br.SetTargetConnection(&tconn{c: tc, sp: tsp})
+		var tc2 *scriptConn
+		if dup {
+			// a duplicate / retried TunnelOpen of the target end attaches a second connection to the live
+			// bridge: both ends' scripts are held at their end until everything scripted has been exchanged,
+			// then the second connection is attached and the source's end-of-stream is released
+			for d := time.Now().Add(10 * time.Second); time.Now().Before(d); time.Sleep(100 * time.Microsecond) {
+				sc.mu.Lock()
+				a := sc.ri >= len(sc.reads) || sc.reads[sc.ri].after > sc.recv.Len()
+				sc.mu.Unlock()
+				tc.mu.Lock()
+				b := tc.ri >= len(tc.reads) || tc.reads[tc.ri].after > tc.recv.Len()
+				tc.mu.Unlock()
+				if (a && b) || !sm.VerifHasBridge(id) {
+					break
+				}
+			}
+			tc2 = newScriptConn("tgt2", nil, nil)
+			tc2.holdAtEnd = true
+			br.SetTargetConnection(&tconn{c: tc2})
+			// the source end now reaches its end-of-stream (events still gated never happen)
+			sc.mu.Lock()
+			sc.holdAtEnd = false
+			sc.cond.Broadcast()
+			sc.mu.Unlock()
+		}
 		cds, stalled := "1", "0"
 		if stall {
 			// wait until the final traffic report is inside the (stalled) backend, or the bridge is gone
@@ -388,6 +416,11 @@ func runBridge(lim string, src, tgt []readEv, sw, tw []writeEv, stall, realPath 
 		sc.mu.Unlock()
 		if stall {
 			o += " cds " + cds + " stalled " + stalled
+		}
+		if dup {
+			tc2.mu.Lock()
+			o += " t2c " + b2s(tc2.closed) + " t2n " + strconv.Itoa(tc2.recv.Len())
+			tc2.mu.Unlock()
 		}
 		res <- o
 	}()
@@ -498,12 +531,12 @@ func execCase(out *vc.Out, caseStr string) {
 		out.Case(caseStr, runCloseRace(k), caseStr)
 	case "reattach", "reattachfree":
 		execReattach(out, caseStr, toks)
-	case "bridge", "bridgestall", "bridgereal":
+	case "bridge", "bridgestall", "bridgereal", "bridgedup":
 		src, i := parseReads(toks, 3, true)
 		tgt, i := parseReads(toks, i, true)
 		sw, i := parseWrites(toks, i)
 		tw, _ := parseWrites(toks, i)
-		obs := runBridge(toks[2], src, tgt, sw, tw, toks[0] == "bridgestall", toks[0] == "bridgereal")
+		obs := runBridge(toks[2], src, tgt, sw, tw, toks[0] == "bridgestall", toks[0] == "bridgereal", toks[0] == "bridgedup")
 		key := caseStr
 		if len(key) > 200 {
 			key = key[:200] + strconv.Itoa(len(caseStr))
@@ -703,6 +736,18 @@ func gen(out *vc.Out, r *vc.Rand, thorough bool) {
 			out.Count("bridge:real-start-path")
 		}
 		execCase(out, kind+" lim "+lim+" "+fmtReads("src", src, true)+" "+fmtReads("tgt", tgt, true)+" "+fmtWrites("sw", sw)+" "+fmtWrites("tw", tw))
+	}
+	// a second target connection is attached to the live bridge (duplicate / retried TunnelOpen): both
+	// directions free-running, ends held until everything scripted has been exchanged
+	ndup := 8
+	if thorough {
+		ndup = 120
+	}
+	for i := 0; i < ndup; i++ {
+		src := genReads(r, out, 1+r.Intn(4), small, false)
+		tgt := genReads(r, out, r.Intn(4), small, false)
+		out.Count("bridge:duplicate-target-attach")
+		execCase(out, "bridgedup lim - "+fmtReads("src", src, true)+" "+fmtReads("tgt", tgt, true)+" "+fmtWrites("sw", nil)+" "+fmtWrites("tw", nil))
 	}
 }
 
